@@ -171,6 +171,7 @@ theorem wrapScalar_ds (env : Env) {t : TagKind} {kw : CtorKw} (v : RVal) (h : kw
       cases s <;> first
         | rfl
         | (simp only [wrapScalar, dsBuild, leafMd, mkFlags_DS env h1 h2 h3]; rfl)
+        | (simp [wrapScalar, dsBuild, leafMd, dsFlags, bareFlags, h3] <;> rfl)
     | empty => simp only [wrapScalar, dsBuild, leafMd, mkFlags_DS env h1 h2 h3]; rfl
     | text s => simp only [wrapScalar, dsBuild, leafMd, mkFlags_DS env h1 h2 h3]; rfl
 
